@@ -126,6 +126,28 @@ def check(run, views, tier):
                     run.ob("R-PRINTGATE", "with the check on, the printer is queried first with the same client", len(queries) == 1 and
                            same(queries[0][2][0], prints[0][2][0]) and p.trace.index(queries[0]) < p.trace.index(prints[0]), "queries=%d" % len(queries), site(b),
                            key="R-PRINTGATE|ipputil::do_print_job|query-first")
+                for q in queries:
+                    # the state query must ask for everything, or at least for what the readiness helper reads
+                    filt = [x for x in subterms(q[2][1]) if is_call(x) and "GetPrinterAttributesBuilder::" in x[1] and x[1].split("::")[-1] in ("attribute", "attributes")]
+                    names, opaque = set(), False
+                    for x in filt:
+                        for a in x[2][1:]:
+                            lits = [y[1] for y in subterms(a) if y[0] == "lit" and isinstance(y[1], str)]
+                            consts = [y for y in subterms(a) if y[0] == "def"]
+                            for y in consts:
+                                v = F.const_value(y[1]) if hasattr(F, "const_value") else None
+                                if isinstance(v, str):
+                                    lits.append(v)
+                                else:
+                                    opaque = True
+                            if not lits:
+                                opaque = True
+                            names |= set(lits)
+                    need = {"printer-state", "printer-state-reasons"}
+                    ok = not filt or (not opaque and need <= names) or ("all" in names and not opaque)
+                    run.ob("R-PRINTGATE", "the state query requests all attributes, or at least printer-state and printer-state-reasons", ok,
+                           "the Get-Printer-Attributes query restricts requested-attributes to %s%s: the readiness helper reads %s" % (sorted(names), " (+ non-literal names)" if opaque else "", sorted(need)),
+                           site(b, q[3]), key="R-PRINTGATE|ipputil::do_print_job|query-attributes")
                 if nocheck is True:
                     run.ob("R-PRINTGATE", "with -n no state query is made", not queries, "state query despite no_check_state", site(b),
                            key="R-PRINTGATE|ipputil::do_print_job|query-with-n")
